@@ -465,6 +465,11 @@ def at_table(rnd):
         return ([["Excl", r"^\s*resume", "enable_exclusion"], ["Excl", r"^\s*stop", "disable_exclusion"],
                  ["ExcludeRegion", r"^\s*(enable|on)(\s|$)", "enable_exclusion"]],
                 {"enable_exclusion": ["resume", "  resume now", "on"], "disable_exclusion": ["stop", "stopped"]})
+    if k < 0.8:
+        # unanchored patterns: match() must anchor at the start of the parameters, a keyword further right is no match
+        return ([["Exclude", "on", "enable_exclusion"], ["Exclude", "off", "disable_exclusion"]],
+                {"enable_exclusion": ["on", "only now", "note: second one", "reason: on", "x on"],
+                 "disable_exclusion": ["off", "offline", "note: cutoff reached", "turn off", "x off"]})
     if k < 0.88:
         # patterns that accept the empty string (what the settings UI stores for a blank field), commands sent without parameters
         return ([["Stop", "", "disable_exclusion"], ["Go", ".*", "enable_exclusion"], ["Halt", r"^\s*$", "disable_exclusion"]],
@@ -494,9 +499,11 @@ class C14(MotionMonitor):
         if feats.get("fw"):
             feats["fwparam"] = ""
         regs, g = gen_program(rnd, feats, settings)
-        # make the @-commands denser
         steps = g.steps
         case = dict(cls=name, settings=settings, regions=regs, steps=steps, tags=sorted(g.tags))
+        if feats.get("fw"):
+            case["fw"] = True
+            case["fwparam"] = ""
         if rnd.random() < 0.08:
             case["streaming"] = True
         return case
@@ -504,8 +511,12 @@ class C14(MotionMonitor):
     def oracle(self, tr, stats, case):
         v = oracle_c14(tr, stats)
         if not case.get("streaming"):
-            # after re-enabling, the C01 monitors keep running
-            v += [x for x in oracle_c01(tr, stats)]
+            # after re-enabling, the C01 monitors keep running; a disable closes an episode "with the same re-synchronisation
+            # obligations as leaving a region", which includes the extruder coordinate and an owed recovery (C04/C05 oracles;
+            # all programs here have matched retract cycles and absolute extrusion)
+            v += oracle_c01(tr, stats)
+            v += oracle_c04(tr, stats)
+            v += oracle_c05(tr, stats, bool(case.get("fw")))
         return v
 
     def nontrivial(self, tr, case):
